@@ -34,10 +34,20 @@ Proof.
   destruct l; cbn [tspec_of]; try assumption. reflexivity.
 Qed.
 
+(* the repaired source (fix b20520c, fix 12368d4) as read by the translator: the built-in exclusion is applied to the path
+   re-rooted at the project root, file-placement re-roots relative paths.  Proved by computation on the generated constants:
+   if the source falls back to the old shapes these two facts - and every theorem below that no longer guards the
+   corresponding quirk flag - stop checking. *)
+Lemma exclusion_scope_now : scope_given hard_exclusion_scope = false.
+Proof. reflexivity. Qed.
+Lemma fp_rerooted_now : fp_relative_paths_rerooted = true.
+Proof. reflexivity. Qed.
+
 (* ---------- 1. flags off: location independence ---------- *)
+(* q_excl_all_parts and q_fp_relative_unchanged are NOT guarded any more: with the repaired source they have no effect *)
 Definition flags_off (q : quirks) : Prop :=
-  q_excl_all_parts q = false /\ q_ignore_no_reroot q = false /\ q_linter_ignore_full_path q = false
-  /\ q_fp_relative_unchanged q = false /\ q_test_marker_full_path q = false /\ q_rule_parser_cwd q = false.
+  q_ignore_no_reroot q = false /\ q_linter_ignore_full_path q = false
+  /\ q_test_marker_full_path q = false /\ q_rule_parser_cwd q = false.
 
 Lemma true_rel_ok e ab lead rel :
   resolve (e_cwd e) (GP ab (lead ++ rel)) = (e_root e ++ rel)%list -> true_rel e (GP ab (lead ++ rel)) = rel.
@@ -51,11 +61,12 @@ Theorem file_location_independent_gen q e sg cfg g rel lg raw :
   file_result q e sg cfg {| f_given := g; f_lang := lg; f_raw := raw |}
   = spec_file (e_root_pats e) sg cfg {| s_rel := rel; s_lang := lg; s_raw := raw |}.
 Proof.
-  intros (H1 & H2 & H3 & H3b & H4 & H5) Hname Hres.
+  intros (H2 & H3 & H4 & H5) Hname Hres.
   unfold file_result, spec_file. cbn [f_given f_lang f_raw s_rel s_lang s_raw].
   assert (Hrel : true_rel e g = rel) by (unfold true_rel; rewrite Hres, strip_prefix_app; reflexivity).
   rewrite Hrel, Hname.
-  unfold rule_ignored, orch_ignored, fp_path. rewrite H1, H2, H3, H3b, H4, H5. cbn [andb].
+  unfold rule_ignored, orch_ignored, fp_path. rewrite exclusion_scope_now, fp_rerooted_now, H2, H3, H4, H5. cbn [andb negb].
+  rewrite !andb_false_r.
   destruct (hard_excluded rel (name_of rel)); [reflexivity|].
   destruct (repo_ignored (e_root_pats e) (unrooted rel) rel); [reflexivity|].
   rewrite andb_false_r. destruct (cs_ikind sg); reflexivity.
@@ -101,14 +112,21 @@ Qed.
 (* ---------- 2. what each faithful predicate adds ---------- *)
 (* built-in exclusion over all parts of the given path = exclusion by the path inside the project
    OR some leading component is an excluded name *)
-Theorem hard_excluded_given ab lead rel name :
+Theorem hard_excluded_given ab lead rel name : rel <> [] ->
   hard_excluded (all_parts (GP ab (lead ++ rel))) name = hard_excluded rel name || existsb excl_comp lead.
 Proof.
-  unfold hard_excluded, all_parts. cbn [g_abs g_parts]. rewrite !existsb_app.
+  intros Hne. unfold hard_excluded, all_parts, dir_parts. cbn [g_abs g_parts].
   assert (E : existsb excl_comp (if ab then ["/"] else []) = false).
   { destruct ab; cbn [existsb]; [rewrite root_part_not_excluded|]; reflexivity. }
-  rewrite E. cbn [orb].
-  destruct (smem (py_suffix name) excluded_exts), (existsb excl_comp lead), (existsb excl_comp rel); reflexivity.
+  assert (G : forall f : list string -> list string, (forall a b, b <> [] -> f (a ++ b)%list = (a ++ f b)%list) ->
+              existsb excl_comp (f ((if ab then ["/"] else []) ++ lead ++ rel)%list)
+              = existsb excl_comp lead || existsb excl_comp (f rel)).
+  { intros f Hf. rewrite app_assoc, (Hf _ _ Hne), !existsb_app, E. reflexivity. }
+  destruct hard_exclusion_skips_file_name.
+  - rewrite (G (@removelast string) (fun a b Hb => removelast_app a Hb)).
+    destruct (smem (py_suffix name) excluded_exts), (existsb excl_comp lead), (existsb excl_comp (removelast rel)); reflexivity.
+  - rewrite (G (fun l => l) (fun a b _ => eq_refl)).
+    destruct (smem (py_suffix name) excluded_exts), (existsb excl_comp lead), (existsb excl_comp rel); reflexivity.
 Qed.
 
 (* the string in front of the path inside the project *)
@@ -213,7 +231,6 @@ Qed.
 Theorem confinement_absolute q e sg cfg lead rel lg raw :
   rel <> [] -> e_root e = lead ->
   resolve (e_cwd e) (GP true (lead ++ rel)) = (lead ++ rel)%list ->
-  existsb excl_comp lead = false ->
   pats_clean (cs_ikind sg) (ignore_pats sg cfg) (rooted lead ++ String slash "") rel = true ->
   tspec_simple (tspec_of sg lg) = true ->
   any_sub (t_str_contains (tspec_of sg lg)) (rooted lead ++ String slash "") = false ->
@@ -221,13 +238,13 @@ Theorem confinement_absolute q e sg cfg lead rel lg raw :
   file_result q e sg cfg {| f_given := GP true (lead ++ rel); f_lang := lg; f_raw := raw |}
   = spec_file (e_root_pats e) sg cfg {| s_rel := rel; s_lang := lg; s_raw := raw |}.
 Proof.
-  intros Hne Hroot Hres Hex Hpc Hts Htc Hcwd.
+  intros Hne Hroot Hres Hpc Hts Htc Hcwd.
   unfold file_result, spec_file. cbn [f_given f_lang f_raw s_rel s_lang s_raw g_parts].
   assert (Hrel : true_rel e (GP true (lead ++ rel)) = rel) by (apply true_rel_ok; now rewrite Hroot).
   rewrite Hrel, (name_of_app _ _ Hne).
   assert (HX : hard_excluded (if q_excl_all_parts q && scope_given hard_exclusion_scope then all_parts (GP true (lead ++ rel)) else rel) (name_of rel)
                = hard_excluded rel (name_of rel)).
-  { destruct (q_excl_all_parts q && scope_given hard_exclusion_scope); [|reflexivity]. rewrite hard_excluded_given, Hex. apply orb_false_r. }
+  { rewrite exclusion_scope_now, andb_false_r. reflexivity. }
   rewrite HX. destruct (hard_excluded rel (name_of rel)); [reflexivity|].
   assert (HV : parser_view (e_root e) (GP true (lead ++ rel)) = (unrooted rel, rel))
     by (rewrite Hroot; apply parser_view_abs_under_root).
@@ -243,7 +260,7 @@ Proof.
       + rewrite HV. cbn [fst snd]. rewrite ER. apply andb_false_r.
       + rewrite Hc. unfold repo_ignored. cbn [existsb]. apply andb_false_r. }
   assert (HF : fp_path q e (GP true (lead ++ rel)) rel = unrooted rel).
-  { unfold fp_path. destruct (q_fp_relative_unchanged q); [rewrite HV|]; reflexivity. }
+  { unfold fp_path. destruct (q_fp_relative_unchanged q && negb fp_relative_paths_rerooted); [rewrite HV|]; reflexivity. }
   assert (HT : test_exempt (tspec_of sg lg) (if q_test_marker_full_path q then pstr (GP true (lead ++ rel)) else rooted rel) (name_of rel)
                = test_exempt (tspec_of sg lg) (rooted rel) (name_of rel)).
   { destruct (q_test_marker_full_path q); [|reflexivity]. now apply test_exempt_abs. }
@@ -266,14 +283,13 @@ Corollary confinement_absolute_cmd q e n sg cfg lead rel lg raw :
   find_sig n = Some sg ->
   rel <> [] -> e_root e = lead ->
   resolve (e_cwd e) (GP true (lead ++ rel)) = (lead ++ rel)%list ->
-  existsb excl_comp lead = false ->
   pats_clean (cs_ikind sg) (ignore_pats sg cfg) (rooted lead ++ String slash "") rel = true ->
   any_sub (t_str_contains (tspec_of sg lg)) (rooted lead ++ String slash "") = false ->
   (cs_cwd_parser sg = false \/ list_eqb (e_cwd e) (e_root e) = true \/ e_cwd_pats e = []) ->
   file_result q e sg cfg {| f_given := GP true (lead ++ rel); f_lang := lg; f_raw := raw |}
   = spec_file (e_root_pats e) sg cfg {| s_rel := rel; s_lang := lg; s_raw := raw |}.
 Proof.
-  intros Hf Hne Hroot Hres Hex Hpc Htc Hcwd.
+  intros Hf Hne Hroot Hres Hpc Htc Hcwd.
   apply confinement_absolute; try assumption. apply gen_tspec_simple. exact (find_sig_in _ _ Hf).
 Qed.
 
@@ -337,7 +353,7 @@ Proof.
       + cbn [parser_view g_abs fst snd pstr all_parts g_parts app]. rewrite ER. apply andb_false_r.
       + rewrite Hc. unfold repo_ignored. cbn [existsb]. apply andb_false_r. }
   assert (HF : fp_path q e (GP false rel) rel = unrooted rel).
-  { unfold fp_path. destruct (q_fp_relative_unchanged q); reflexivity. }
+  { unfold fp_path. destruct (q_fp_relative_unchanged q && negb fp_relative_paths_rerooted); reflexivity. }
   assert (HT : test_exempt (tspec_of sg lg) (if q_test_marker_full_path q then pstr (GP false rel) else rooted rel) (name_of rel)
                = test_exempt (tspec_of sg lg) (rooted rel) (name_of rel)).
   { destruct (q_test_marker_full_path q); [|reflexivity]. unfold test_exempt, pstr. cbn [g_abs g_parts].
